@@ -180,7 +180,7 @@ class Engine:
         ek = elem_kind(v.kind); fld = items_field(ek); n = self.llen(v, p); it = self.litems(v, p)
         q = If(pos < 0, If(pos + n < 0, 0, pos + n), If(pos > n, n, pos))                  # CPython clamp semantics of list.insert
         self.frame(p, v.term, fld, line)
-        new = fresh('ins', p.heap.fsort(fld)); x = val.term; ARR_SIG[new.get_id()] = _canon_arr(it)
+        new = fresh('ins', p.heap.fsort(fld)); x = val.term; ARR_SIG[new.decl().name()] = _canon_arr(it)
         p.facts.append(Schematic(1, lambda k, new=new, it=it, q=q, x=x: new[k] == If(k < q, it[k], If(k == q, x, it[k - 1])), 'list.insert'))
         p.heap.store(v.term, fld, new); p.heap.store(v.term, '$len', n + 1)
     def contains(self, v, x, p):
@@ -438,7 +438,7 @@ class Engine:
             n = self.llen(lst, p); it = self.litems(lst, p)
             start = If(a >= 0, If(a > n, n, a), If(n + a < 0, 0, n + a))
             self.frame(p, lst.term, '$items:int', s.lineno)
-            new = fresh('slc', z3.ArraySort(I, I)); ARR_SIG[new.get_id()] = _canon_arr(it)
+            new = fresh('slc', z3.ArraySort(I, I)); ARR_SIG[new.decl().name()] = _canon_arr(it)
             p.facts.append(Schematic(1, lambda k, new=new, it=it, start=start, nadd=nadd, n=n: Implies(And(0 <= k, k < n), new[k] == it[k] + If(k >= start, nadd, 0)), 'slice+='))
             p.heap.store(lst.term, '$items:int', new); return [Outcome('next', p)]
         if isinstance(s, ast.AugAssign):
@@ -716,7 +716,7 @@ def _decide_one(i):
             m = s2.model(); vals = spec.model_values(E, m) if hasattr(spec, 'model_values') else {}
             return (i, 'refuted', dt + dt2, 'bounded-scope counter-model', vals)
         # no counter-model in the small scope: the stage-1 `sat` was an artefact of incomplete instantiation -> deeper instantiation
-        r3, dt3, ninst, s3 = discharge_typed(ob, timeout=timeout, rounds=5, cap_per_var=40)
+        r3, dt3, ninst, s3 = discharge_typed(ob, timeout=timeout, rounds=6, cap_per_var=120, max_inst=40000)
         if r3 == z3.unsat: return (i, 'proved', dt + dt2 + dt3, f'{ninst} instances (deep)', None)
         return (i, 'unknown', dt + dt2 + dt3, f'stage1={r} stage2={r2} stage3={r3}', None)
     except Exception as e:
@@ -754,7 +754,7 @@ def _canon_ref(r, depth=0):
 def _canon_arr(a, depth=0):
     """signature of an array-sorted term: base heap field (version stripped) + shape of the owning object"""
     if depth > 6: return '_'
-    if a.get_id() in ARR_SIG: return ARR_SIG[a.get_id()]
+    if z3.is_app(a) and a.num_args() == 0 and a.decl().name() in ARR_SIG: return ARR_SIG[a.decl().name()]
     if z3.is_app(a):
         kd = a.decl().kind()
         if a.num_args() == 0: return _base_name(a.decl().name())
@@ -802,7 +802,13 @@ def _schematic_patterns(sc):
         sc._pats = [pats.get(_PH[k].get_id(), set()) for k in range(sc.n)]
     return sc._pats
 
-def discharge_typed(ob, timeout=60000, rounds=3, extra_hyps=(), cap_per_var=24, max_inst=6000):
+import re as _re
+_bang = _re.compile(r'!\d+')
+def _term_key(t):
+    """deterministic, run-independent ordering of candidate terms: small terms first; fresh-name counters are ignored"""
+    st = _bang.sub('!', str(t)); return (len(st), st)
+
+def discharge_typed(ob, timeout=60000, rounds=3, extra_hyps=(), cap_per_var=40, max_inst=12000):
     """E-matching done by the generator: each universally quantified hypothesis is instantiated only with ground terms that occur
     as an index of an array (or argument of a ghost function) of the same signature as one of the positions where the bound
     variable occurs in the hypothesis.  Sound (instances only); the result is quantifier-free."""
@@ -824,7 +830,7 @@ def discharge_typed(ob, timeout=60000, rounds=3, extra_hyps=(), cap_per_var=24, 
                 if not pats[k]:
                     for t in list(allg.values())[:cap_per_var]: cand[t.get_id()] = t
                     z0 = z3.IntVal(0); cand[z0.get_id()] = z0
-                c = sorted(cand.values(), key=lambda t: len(str(t)))[:cap_per_var]
+                c = sorted(cand.values(), key=_term_key)[:cap_per_var]
                 doms.append(c)
             for args in itertools.product(*doms):
                 key = (id(sc),) + tuple(a.get_id() for a in args)
